@@ -142,7 +142,7 @@ pub fn run(tier: &str, seed: u64) -> i32 {
                 prop::collection::vec(gen::doc_recipe(), 0..=5),
                 prop::collection::vec(gen::doc_recipe(), 0..=5),
                 prop_oneof![2 => Just(None), 1 => (0u8..16).prop_map(Some), 1 => Just(Some(15u8))],
-                prop_oneof![4 => Just(None), 1 => (0u8..5, any::<bool>(), any::<u8>()).prop_map(Some)],
+                prop_oneof![4 => Just(None), 2 => (0u8..9, any::<bool>(), any::<u8>()).prop_map(Some)],
             )
         },
         |(rule, tps, tns, sw, bad): &(RuleSpec, Vec<gen::DocRecipe>, Vec<gen::DocRecipe>, Option<u8>, Option<(u8, bool, u8)>)| {
@@ -191,7 +191,17 @@ pub fn run(tier: &str, seed: u64) -> i32 {
                     1 => Y::String("not a mapping".into()),
                     2 => Y::Null,
                     3 => Y::Sequence(vec![Y::String("x".into())]),
-                    _ => Y::Bool(true),
+                    4 => Y::Bool(true),
+                    // tagged values that are not mappings either
+                    k => {
+                        let inner = match k {
+                            5 => Y::String("tagged text".into()),
+                            6 => Y::Null,
+                            7 => Y::Number(3.into()),
+                            _ => Y::Sequence(vec![Y::Mapping(serde_yaml::Mapping::new())]),
+                        };
+                        Y::Tagged(Box::new(serde_yaml::value::TaggedValue { tag: serde_yaml::value::Tag::new("example"), value: inner }))
+                    }
                 };
                 let list = if *in_pos { &mut p } else { &mut ng };
                 let i = (*at as usize) % (list.len() + 1);
